@@ -159,6 +159,18 @@ func runC11(w *World, r *Report) {
 	if pc := findProc(submit, fPre); pc == nil {
 		r.Fail("C11.pre-before-post-after", "submit runs the pre-handler", submit.Pos(), "no pre-processor call in submit")
 	} else {
+		{
+			extra := extraGuards(pc.Block(), guardOnField(fPre), guardOnField(w.Field("compose", "task", "skipPreHandler")), guardErrNil, func(g guard) bool {
+				// loop headers over the submitted tasks (range / index < len)
+				op, _, y, ok := asCmp(g.cond)
+				return ok && op == token.LSS && isLenOf(y, func(ssa.Value) bool { return true })
+			}, func(g guard) bool {
+				// len(tasks) == 0 early return
+				_, x, _, ok := asCmp(g.cond)
+				return ok && isLenOf(x, func(ssa.Value) bool { return true })
+			})
+			r.Check(len(extra) == 0, "C11.pre-before-post-after", "submit: pre-handler gate depends only on preProcessor", pc.Pos(), "guards: loop header, preProcessor != nil, !skipPreHandler (resumed task, see C05)", fmt.Sprintf("the state pre-handler is skipped under a further condition %v", extra))
+		}
 		r.Check(storesResultTo(submit, pc, fIn), "C11.pre-before-post-after", "submit: pre-handler result becomes the task input", pc.Pos(), "task.input = result", "the value returned by the state pre-handler is discarded: the node does not receive it")
 		// every launch is after the pre-processing loop: no path from entry to a launch that avoids the pre-loop's range/len header
 		var launches []ssa.Instruction
@@ -209,6 +221,10 @@ func runC11(w *World, r *Report) {
 			}
 		})
 		r.Check(okErr && recv != nil && instrDominates(recv, pc), "C11.pre-before-post-after", "waitOne: post-handler after collection, only on success", pc.Pos(), "after <-done, under task.err == nil", "post-handler runs for failed tasks or before the task is collected")
+		// gate exactness: the post-handler of a collected, successful task runs whenever it exists — the only
+		// conditions are "there is a running task", task.err == nil and postProcessor != nil
+		extra := extraGuards(pc.Block(), guardOnField(fErr), guardOnField(fPost), guardOnField(w.Field("compose", "taskManager", "num")))
+		r.Check(len(extra) == 0, "C11.pre-before-post-after", "waitOne: post-handler gate depends only on task.err and postProcessor", pc.Pos(), "guards: num != 0, task.err == nil, postProcessor != nil", fmt.Sprintf("the state post-handler of a successful task is skipped under a further condition %v: its state update and its return value are lost (an interrupting sibling travels through task.err too)", extra))
 	}
 
 	// ---- per-run
@@ -236,7 +252,32 @@ func runC11(w *World, r *Report) {
 						}
 					})
 				}
-				// the generated state is wrapped in a fresh internalState
+				// the generated state is wrapped in a fresh internalState: the holder (state + mutex) placed in
+				// the context is allocated by this very invocation of the per-run literal
+				freshHolder, sawWV := true, false
+				instrs(fn, func(pi ssa.Instruction) {
+					c, ok := pi.(*ssa.Call)
+					if !ok || calleeFullName(c) != "context.WithValue" {
+						return
+					}
+					mi, ok := c.Call.Args[1].(*ssa.MakeInterface)
+					if !ok || namedOf(mi.X.Type()) != w.Named("compose", "stateKey") {
+						return
+					}
+					sawWV = true
+					vmi, ok := c.Call.Args[2].(*ssa.MakeInterface)
+					if !ok {
+						freshHolder = false
+						return
+					}
+					if al, ok := vmi.X.(*ssa.Alloc); !ok || al.Parent() != fn {
+						freshHolder = false
+					}
+				})
+				r.Check(sawWV && freshHolder, "C11.per-run", "state holder allocated in "+w.fname(fn), in.Pos(), "context.WithValue(stateKey{}, &internalState{…}) with the holder allocated by this invocation", "the state holder (state + its mutex) placed in the run's context is not allocated per run: overlapping runs of one compiled graph share and overwrite each other's state")
+				for _, cw := range captureWrites(w, []*ssa.Function{fn}, nil) {
+					r.Fail("C11.per-run", "per-run literal writes captured "+cw.varName, cw.store.Pos(), "the per-run context literal writes a variable/object captured from compile: all runs share it")
+				}
 				r.Check(okk, "C11.per-run", "stateGenerator invoked in "+w.fname(fn), in.Pos(), "inside the per-run context literal", "state generated once per compile instead of once per run")
 			})
 		}
